@@ -153,6 +153,16 @@ pub enum CK {
     A(ACache),
 }
 
+impl CK {
+    /// another handle of the same cache (`Cache::clone`), not another reference to this handle
+    pub fn clone_handle(&self) -> CK {
+        match self {
+            CK::S(c) => CK::S(c.clone()),
+            CK::A(c) => CK::A(c.clone()),
+        }
+    }
+}
+
 #[derive(Clone, Debug)]
 pub struct Config {
     pub is_async: bool,
@@ -391,6 +401,7 @@ pub struct Case {
     pub cfg: Config,
     pub sched: Arc<Sched>,
     pub ck: Arc<CK>,
+    handles: Vec<Arc<CK>>,
     pub cb: Cb,
     jobs: Vec<mpsc::Sender<Job>>,
     pub cstate: Vec<CState>,
@@ -552,6 +563,7 @@ impl Case {
             case_id,
             cfg,
             sched,
+            handles: (0..nclients).map(|_| Arc::new(ck.clone_handle())).collect(),
             ck,
             cb,
             jobs,
@@ -785,7 +797,8 @@ impl Case {
         let seen = self.sched.arrivals(a as Actor);
         self.sched.mark_running(a as Actor);
         self.mon.op_started(a, &op, verif::clock::now_ns(), self.last_snap.closed);
-        let ck = self.ck.clone();
+        // every client works through its own clone()d handle of the cache
+        let ck = self.handles[a].clone();
         let op2 = op.clone();
         self.jobs[a].send(Box::new(move || do_op(&ck, &op2))).unwrap();
         self.after_client_segment(t, a, &format!("op {} {}", a, op.line()), None, seen);
@@ -1144,7 +1157,7 @@ pub fn suite_stress(t: &mut Trace, seed: u64, rounds: u64) -> String {
         let current: Arc<Vec<AtomicU64>> = Arc::new((0..nthreads).map(|_| AtomicU64::new(0)).collect());
         let mut hs = Vec::new();
         for th in 0..nthreads {
-            let ck = ck.clone();
+            let ck = Arc::new(ck.clone_handle());
             let lookups = lookups.clone();
             let accepted = accepted.clone();
             let mut r = Rng::new(seed.wrapping_mul(31).wrapping_add(round * 97 + th as u64));
